@@ -1732,33 +1732,37 @@ impl OutstationSession {
                         controls.hash(),
                     ) {
                         Err(status) => {
-                            controls.respond_with_status(&mut cursor, status).unwrap();
+                            // if the echo doesn't fit in the response, it is truncated
+                            let _ = controls.respond_with_status(&mut cursor, status);
                             status
                         }
                         Ok(()) => {
                             let max_controls_per_request = self.config.max_controls_per_request;
-                            ControlTransaction::execute(
-                                self.control_handler.borrow_mut(),
-                                database,
-                                |tx, db| {
-                                    controls
-                                        .operate_with_response(
+                            let result: Result<CommandStatus, scursor::WriteError> =
+                                ControlTransaction::execute(
+                                    self.control_handler.borrow_mut(),
+                                    database,
+                                    |tx, db| {
+                                        controls.operate_with_response(
                                             &mut cursor,
                                             OperateType::SelectBeforeOperate,
                                             tx,
                                             db,
                                             max_controls_per_request,
                                         )
-                                        .unwrap()
-                                },
-                            )
-                            .await
+                                    },
+                                )
+                                .await;
+                            // same handling as SELECT and DIRECT_OPERATE when the echo
+                            // doesn't fit in the response
+                            result.unwrap_or(CommandStatus::Success)
                         }
                     }
                 }
                 None => {
                     let status = CommandStatus::NoSelect;
-                    controls.respond_with_status(&mut cursor, status).unwrap();
+                    // if the echo doesn't fit in the response, it is truncated
+                    let _ = controls.respond_with_status(&mut cursor, status);
                     status
                 }
             };
